@@ -169,6 +169,11 @@ func c14Gen(rt *rapid.T) wProg {
 					a, b, ta, tb = s1, s0, "p0", "p1"
 				}
 				p.Ops = append(p.Ops, wOp{K: "sub", S: a, T: ta}, wOp{K: "sub", S: b, T: tb}, wOp{K: "leave", S: b, T: tb, F: true})
+				if gPct(rt, 50) {
+					// ... or the other one leaves for good as well, while attached: the topic removes itself
+					p.Ops = append(p.Ops, wOp{K: "leave", S: a, T: ta, F: true}, wOp{K: "tick", N: 100}, wOp{K: "sub", S: b, T: tb}, wOp{K: "pub", S: b, T: tb})
+					break
+				}
 				for k := range p.Sess {
 					p.Ops = append(p.Ops, wOp{K: "leave", S: k, T: fmt.Sprintf("p%d", 1-min(p.Sess[k], 1))})
 				}
@@ -229,6 +234,7 @@ type c14Obs struct {
 	racingSub   map[string]bool
 	servedKnown map[string]bool
 	known       func(*kit.Viol) bool
+	faults      bool
 }
 
 func (o *c14Obs) Before(w *wWorld, op *wOp) {
@@ -256,6 +262,15 @@ func (o *c14Obs) Final(w *wWorld) *kit.Viol {
 }
 
 func (o *c14Obs) After(w *wWorld, st *wStep) *kit.Viol {
+	if st.Op.K == "fault" {
+		o.faults = true
+	}
+	// a request which finds, with nothing else going on, a topic that has locked itself: the topic is blocked
+	if c := st.reply(); st.Op.K == "sub" && !st.Skipped && !o.faults && c != nil && c.Code == 503 && c.Text == "locked" {
+		if lt := o.preLive[st.Route]; lt != nil && lt.Status&(topicStatusPaused|topicStatusMarkedDeleted) != 0 && len(lt.Sessions) == 0 {
+			return kit.V("topic-locked-at-rest", "topic %s sat in the hub paused/marked deleted (status %#x) with no request in flight; %s was answered 503 locked", st.Route, lt.Status, st.Req)
+		}
+	}
 	steps := []*wStep{st}
 	if st.Op.K == "par" {
 		steps = st.Sub
